@@ -20,6 +20,7 @@ import SpsdkVerif.Crypto.Modes
 import SpsdkVerif.Crypto.Crc
 import SpsdkVerif.Generated.SymConsts
 import SpsdkVerif.Generated.CrcTable
+import SpsdkVerif.Generated.Sb31Kdf
 
 namespace SpsdkVerif.SymWrappers
 open SpsdkVerif SpsdkVerif.Crypto
@@ -206,6 +207,43 @@ def getHash (c : CryptoOps) (a : HashAlg) (m : Bytes) : Bytes := c.hash a m
 
 /-- `Hash.update_int(value)`: big-endian bytes of `abs value`, no bytes at all for 0 -/
 def updateIntBytes (v : Int) : Bytes := beEnc (Misc.byteLen v.natAbs) v.natAbs
+
+/-! ## `spsdk.crypto.hash`: `get_hash_algorithm` / `get_hash_length` / the streaming `Hash` object -/
+
+/-- what `getattr(hashes, algorithm.label.upper(), None)` finds for the labels of `EnumHashAlgorithm`
+    (`cryptography.hazmat.primitives.hashes` has SHA1, SHA256, SHA384, SHA512, MD5, SM3 — and no `NONE`);
+    MD5 and SM3 are recognised but not modelled further (oracle-only) -/
+inductive HashKind where
+  | modelled (a : HashAlg)
+  | md5
+  | sm3
+  deriving DecidableEq, Repr
+
+def hashKindOfLabel (label : String) : Option HashKind :=
+  if label == "sha1" then some (.modelled .sha1) else if label == "sha256" then some (.modelled .sha256)
+  else if label == "sha384" then some (.modelled .sha384) else if label == "sha512" then some (.modelled .sha512)
+  else if label == "md5" then some .md5 else if label == "sm3" then some .sm3 else none
+
+def HashKind.digestSize : HashKind → Nat
+  | .modelled a => a.size
+  | .md5 => 16
+  | .sm3 => 32
+
+/-- `get_hash_length(algorithm)`; an algorithm without a class in `hashes` is an SPSDKError -/
+def getHashLength (label : String) : PyRes Nat :=
+  match hashKindOfLabel label with
+  | some k => .ok k.digestSize
+  | none => .error .spsdk
+
+/-- `Hash(algorithm)`: everything fed so far (the library object is opaque; `finalize` hashes the concatenation) -/
+structure HashObj where
+  alg : HashAlg
+  data : Bytes
+
+def HashObj.new (a : HashAlg) : HashObj := ⟨a, []⟩
+def HashObj.update (o : HashObj) (d : Bytes) : HashObj := { o with data := o.data ++ d }
+def HashObj.updateInt (o : HashObj) (v : Int) : HashObj := o.update (updateIntBytes v)
+def HashObj.finalize (c : CryptoOps) (o : HashObj) : Bytes := c.hash o.alg o.data
 
 /-! ## CRC: `crcmod.mkCrcFun(poly, initCrc, rev, xorOut)` in Rocksoft terms.
     `crcmod` takes the polynomial WITH its leading term (width = bit length − 1) and an `initCrc` that is
